@@ -136,6 +136,14 @@ def main(argv=None):
     except ValueError:
         seed = 0
     t0 = time.time()
+    import signal
+
+    def _alarm(signum, frame):
+        print(f"[{prop_id}] machinery timeout after {time.time() - t0:.0f}s (not a verdict)", file=sys.stderr)
+        os._exit(2)
+
+    signal.signal(signal.SIGALRM, _alarm)
+    signal.alarm(int(os.environ.get("VERIF_LIMIT_S", "1500" if args.tier == "quick" else "5400")))
     import logging
     logging.disable(logging.CRITICAL)
     core.use_repo_source()
